@@ -64,6 +64,8 @@ class Ob:
     std_checks: bool = True      # False => --no-standard-checks (concurrency harnesses)
     object_bits: int = 0
     replay_tus: tuple = ()       # TUs for native replay (default: tus)
+    kf_witness: bool = False     # this obligation DEMONSTRATES the known finding ob.kf: while the finding is listed, a violation here is the expected outcome
+    native_inputs: tuple = ()    # engine 'native': input lines ('d <value>' / 'i <value>') of one concrete run of the harness against the real build
     unwind_goal: tuple = ()      # unwinding assertions (name substrings) that ARE the property: the loop must stay within its bound
     note: str = ''
 
@@ -390,6 +392,23 @@ def run_bits(ctx, ob, extra_defs=None):
     return res
 
 
+def run_native(ctx, ob, extra_defs=None):
+    """one concrete execution of a harness against the native build (ASan/UBSan): used only to re-demonstrate a listed known finding
+    on its recorded input; the solver-based obligations around it carry the universally quantified part"""
+    t0 = time.time()
+    try: exe = ctx.native_link(ob, extra_defs)
+    except BuildError as x: return Res(ob, 'error', detail=str(x), secs=time.time() - t0)
+    inp = os.path.join(ctx.work, 'native_%d.in' % os.getpid())
+    open(inp, 'w').write('\n'.join(ob.native_inputs) + '\n')
+    env = dict(os.environ); env['ASAN_OPTIONS'] = 'detect_leaks=0'
+    rc, o, e, secs = sh([exe, inp], timeout=ob.timeout, env=env)
+    txt = (o + e)[-600:]
+    if rc == 0: return Res(ob, 'holds', props=[PropRes('native', 'native run of the recorded input', 'holds')], secs=secs, detail=txt[-200:])
+    if rc == 77: return Res(ob, 'error', detail='recorded input does not satisfy the harness precondition: ' + txt, secs=secs)
+    return Res(ob, 'violated', props=[PropRes('native', 'native run of the recorded input', 'violated')], failing=[('native', txt.strip().splitlines()[-1][:200] if txt.strip() else 'native run failed', '')], inputs=list(ob.native_inputs), secs=secs,
+               detail=(txt.strip().splitlines()[-1][:300] if txt.strip() else 'rc=%d' % rc))
+
+
 # -------------------------------------------------------------------------------- native replay
 def write_replay(ctx, ob, res, extra_defs=None, run=True):
     """compile the same harness natively (ASan+UBSan, IEEE doubles) and run it on the solver's inputs.
@@ -475,8 +494,10 @@ def _work(ob):
     ctx, kfs = _CTX, _KFS
     extra = {}
     if ob.kf and ob.kf in kfs: extra['LSV_EXCL_' + ob.kf] = 1
+    if ob.kf_witness: extra = {}          # the witness runs WITHOUT the exclusion
     try:
-        if ob.engine == 'real': r = realmod.run_real(ctx, ob, extra)
+        if ob.engine == 'native': r = run_native(ctx, ob, extra)
+        elif ob.engine == 'real': r = realmod.run_real(ctx, ob, extra)
         else: r = run_bits(ctx, ob, extra)
     except BuildError as x:
         r = Res(ob, 'error', detail=str(x))
@@ -524,7 +545,7 @@ def run_property(prop, tier, obligations, meta, partial=False):
         # native replays (parent, sequential; at most 6 per run, the rest are reported on the solver verdict with their inputs)
         nrep = 0
         for r in sorted(results, key=lambda r: r.ob.id):
-            if r.status != 'violated': continue
+            if r.status != 'violated' or r.ob.engine == 'native': continue
             extra = {}
             if r.ob.kf and r.ob.kf in kfs: extra['LSV_EXCL_' + r.ob.kf] = 1
             if nrep < int(os.environ.get('LSV_MAX_REPLAYS', '6')):
@@ -545,10 +566,16 @@ def run_property(prop, tier, obligations, meta, partial=False):
         if not os.environ.get('LSV_KEEP'): ctx.cleanup()
         else: print('work dir kept:', ctx.work)
     results.sort(key=lambda r: r.ob.id)
+    for r in results:
+        if r.ob.kf_witness and r.ob.kf in kfs:
+            if r.status == 'violated':
+                r.status = 'known'; print(f'  known finding {r.ob.kf} re-demonstrated by {r.ob.id}: {r.detail[:200]}')
+            elif r.status == 'holds':
+                print(f'  note: known finding {r.ob.kf} is no longer demonstrated by {r.ob.id} (repaired?)')
     viol = [r for r in results if r.status == 'violated']
     errs = [r for r in results if r.status in ('error', 'vacuous')]
     und = [r for r in results if r.status == 'undecided']
-    ok = [r for r in results if r.status == 'holds']
+    ok = [r for r in results if r.status in ('holds', 'known')]
     wall = time.time() - t0
     for ln in kf_lines: print(ln)
     # ---- evidence
